@@ -1,7 +1,20 @@
-//! Conformance drivers (pv-ledger). Sub-commands are added per property.
+//! Conformance drivers (pv-ledger): phase-1 ledger validation (C33-C39).
+#![recursion_limit = "512"]
+mod case;
+mod cbor;
+mod fixtures_data;
+mod fixtures_types;
+mod fx_selfcheck;
+mod mutate;
+mod params;
+mod rules;
+mod trace;
+
 fn main() {
     let args = pv_core::Args::parse();
     match args.cmd.as_str() {
+        "fixtures-selfcheck" => fx_selfcheck::run(&args),
+        "phase1-trace" => trace::run(&args),
         other => pv_core::die(&format!("unknown sub-command {other}")),
     }
 }
